@@ -954,7 +954,9 @@ fn render_blocks(r: &mut R, bs: &[Blk], gap: usize, in_item: bool) -> Vec<String
                 && i == 1
                 && (matches!(b, Blk::List { loose: false, ordered: false, .. })
                     || matches!(b, Blk::List { loose: false, ordered: true, start: 1, .. }))
-                && matches!(bs[0], Blk::Para(_));
+                && matches!(bs[0], Blk::Para(_))
+                // (an empty item cannot interrupt a paragraph: such a list needs the blank line)
+                && !matches!(b, Blk::List { items, .. } if items.first().map_or(true, |it| it.is_empty()));
             let fence = |b: &Blk| matches!(b, Blk::Code { fenced: true, .. });
             let para = |b: &Blk| matches!(b, Blk::Para(_));
             let glued = r.glue_fence && ((fence(&bs[i - 1]) && para(b)) || (para(&bs[i - 1]) && fence(b)));
